@@ -88,7 +88,8 @@ Proof. exact roundtrip_idempotent. Qed.
 Theorem C16_sqlite_schema_consistent :
   builder_tuple = table_columns /\ table_columns = [ColId; ColData; ColCount] /\
   select_ids_cols = [ColId] /\ select_sizes_cols = [ColId; ColCount] /\ select_clients_cols = [ColId; ColData] /\
-  sqlite_row_is_id_blob_count = true /\ sqlite_reads_in_rowid_order = true /\ sqlite_fresh_cursor_per_query = true.
+  sqlite_row_is_id_blob_count = true /\ sqlite_reads_in_rowid_order = true /\ sqlite_fresh_cursor_per_query = true /\
+  sqlite_views_forward_constructor_arguments = true.
 Proof. exact sqlite_schema_consistent. Qed.
 
 (* recognised on this run: serialization.py uses no hash(), id(), time, uuid, random, os.environ: the bytes written
